@@ -1,6 +1,7 @@
 import Femio.Lemmas.UcdProps
 import Femio.Lemmas.UcdAlign
 import Femio.Lemmas.UcdTextProps
+import Femio.Model.UcdHist
 import Femio.Gen.Tables
 
 /-! C04 — AVS UCD write → read is exact for mesh, nodal and elemental data.
@@ -413,5 +414,80 @@ theorem C04_type_table :
     Femio.Gen.elementTypes[tet]? = some ['t', 'e', 't'] ∧ Femio.Gen.elementTypes[tet2]? = some ['t', 'e', 't', '2'] ∧
     allTypes = List.range Femio.Gen.elementTypes.length ∧ Femio.Gen.elementTypes.Nodup := by
   decide
+
+/-! ### histories: the object is modified between construction and write, written twice, written after read
+    (`Model/UcdHist.lean`; seeded change C04-6) -/
+open Femio.Text
+
+/-- **C04_history_roundtrip** — the property for an object with ANY history: whatever sequence of modifications
+    (assignments, in-place edits through the arrays returned by `.data`, write-through `.loc`, arbitrary other
+    functions of the whole object state, earlier writes) the session went through, the file a `write` produces now
+    is read back, from its characters, with the coordinates of the object's CURRENT public state and with every
+    variable of that state bound to the same ids (no hypothesis on the history, none on the frames; the public state
+    at the time of the write is a FEMData the writer accepts). -/
+theorem C04_history_roundtrip (s : Sess) (steps : List Step) (p : Nat)
+    (h : FemOK (runSteps HCfg.tree s steps).obj.pub)
+    (hok : meshOKB (toMesh Cfg.fixed (runSteps HCfg.tree s steps).obj.pub) = true) :
+    ∃ t r, fileAt (runSteps HCfg.tree s (steps ++ [Step.write p])) p = some t ∧ readText t = some r ∧
+      r.nodes = (runSteps HCfg.tree s steps).obj.pub.nodes ∧
+      BoundToSameIds ((runSteps HCfg.tree s steps).obj.pub.nodes.map Prod.fst) (runSteps HCfg.tree s steps).obj.pub.nodalVars
+        (readTables r.nodalVars r.nodalRows) ∧
+      BoundToSameIds (Ucd.elemIds (runSteps HCfg.tree s steps).obj.pub.blocks) (runSteps HCfg.tree s steps).obj.pub.elemVars
+        (readTables r.elemVars r.elemRows) := by
+  obtain ⟨r, hr, h1, h2, h3⟩ := C04_own_order_chars _ h hok
+  refine ⟨_, r, ?_, hr, h1, h2, h3⟩
+  simp [runSteps, List.foldl_append, step, fileAt, writtenText, HCfg.tree]
+
+/-- **C04_write_leaves_object** — `write` does not change the object (neither its public state nor its frames),
+    whichever copy the writer reads. -/
+theorem C04_write_leaves_object (cfg : HCfg) (s : Sess) (p : Nat) : (step cfg s (Step.write p)).obj = s.obj := rfl
+
+/-- **C04_second_write_same_file** — writing the same object twice: the second file (same path or another one) has
+    exactly the characters of the first, the first file is still what it was, and files at other paths are not touched. -/
+theorem C04_second_write_same_file (cfg : HCfg) (s : Sess) (p q : Nat) :
+    fileAt (runSteps cfg s [Step.write p, Step.write q]) q = fileAt (runSteps cfg s [Step.write p]) p ∧
+    fileAt (runSteps cfg s [Step.write p, Step.write q]) p = fileAt (runSteps cfg s [Step.write p]) p ∧
+    ∀ o, o ≠ p → o ≠ q → fileAt (runSteps cfg s [Step.write p, Step.write q]) o = fileAt s o := by
+  refine ⟨by simp [runSteps, step, fileAt], ?_, ?_⟩
+  · by_cases hpq : p = q
+    · subst hpq; simp [runSteps, step, fileAt]
+    · have : (p == q) = false := by simpa using hpq
+      simp [runSteps, step, fileAt, List.lookup, this]
+  · intro o hp hq
+    have h1 : (o == q) = false := by simpa using hq
+    have h2 : (o == p) = false := by simpa using hp
+    simp [runSteps, step, fileAt, List.lookup, h1, h2]
+
+/-- **C04_file_of_public_state_only** — two objects with the same public state (say: one that went through a history
+    and an independently constructed fresh one) give byte-identical files, whatever their frames and their pasts. -/
+theorem C04_file_of_public_state_only (o₁ o₂ : Obj) (h : o₁.pub = o₂.pub) :
+    writtenText HCfg.tree o₁ = writtenText HCfg.tree o₂ := by
+  simp [writtenText, HCfg.tree, h]
+
+/-- a history of the kind the suite never runs: construct, move node 3 through the array returned by `nodes.data`
+    and flag the value of node 7 as NaN (`nodal_data['T'].data[0, 0] = nan`), write -/
+def exBefore : Fem Str :=
+  ⟨[(7, ["0.0".toList, "0.0".toList, "0.0".toList]), (3, ["1.0".toList, "0.0".toList, "0.0".toList])],
+   [(0, [⟨5, [7, 3]⟩])], [⟨"T".toList, 1, [7, 3], [["20.5".toList], ["21.5".toList]]⟩], []⟩
+def exAfter : Fem Str :=
+  ⟨[(7, ["0.0".toList, "0.0".toList, "0.0".toList]), (3, ["1.0".toList, "2.5".toList, "0.0".toList])],
+   [(0, [⟨5, [7, 3]⟩])], [⟨"T".toList, 1, [7, 3], [["NaN".toList], ["21.5".toList]]⟩], []⟩
+def exHistory : List Step := [Step.assign exBefore, Step.write 0, Step.inplace exAfter, Step.write 1]
+def exStart : Sess := ⟨⟨⟨[], [], [], []⟩, ⟨[], [], [], []⟩⟩, []⟩
+
+example : FemOK (runSteps HCfg.tree exStart exHistory).obj.pub := femOKB_sound _ (by decide +kernel)
+example : ((fileAt (runSteps HCfg.tree exStart exHistory) 1).bind readText).map (fun r => (r.nodes, r.nodalRows))
+    = some (exAfter.nodes, [(7, ["NaN".toList]), (3, ["21.5".toList])]) := by decide +kernel
+example : fileAt (runSteps HCfg.tree exStart exHistory) 0 = some (fileText (toMesh Cfg.fixed exBefore)) := by decide +kernel
+
+/-- **C04_stale_frame_counterexample** — a writer that takes coordinates and values from the attributes' frames
+    instead of their public `data` views (`HCfg.staleFrame`) exports the state BEFORE the in-place edits: on the
+    history above the second file is the first one again and reads back with the old coordinates and the old value. -/
+theorem C04_stale_frame_counterexample :
+    fileAt (runSteps HCfg.staleFrame exStart exHistory) 1 = fileAt (runSteps HCfg.staleFrame exStart exHistory) 0 ∧
+    ((fileAt (runSteps HCfg.staleFrame exStart exHistory) 1).bind readText).map (fun r => (r.nodes, r.nodalRows))
+      = some (exBefore.nodes, [(7, ["20.5".toList]), (3, ["21.5".toList])]) ∧
+    exBefore.nodes ≠ (runSteps HCfg.staleFrame exStart exHistory).obj.pub.nodes := by
+  decide +kernel
 
 end Femio.C04
